@@ -14,3 +14,4 @@ import AcryoVerif.Props.C13
 import AcryoVerif.Props.C01
 import AcryoVerif.Props.C11
 import AcryoVerif.Props.C03
+import AcryoVerif.Props.C10
